@@ -1106,12 +1106,12 @@ fn noise_thread(cache: Arc<Cache>, stop: Arc<AtomicBool>, seed: u64, n_owner_key
         let key = 1000 + lane * 8 + rng.below(4);
         counter += 1;
         match rng.below(10) {
-            0..=2 => wait(cache.put_with_weight(key, token(key, 9, counter), 25 + (key % 10) as i64)),
-            3 => wait(cache.put_with_weight_and_ttl(key, token(key, 9, counter), 25 + (key % 10) as i64, Duration::from_nanos(rng.range(0, 3 * NS)))),
+            0..=2 => wait(cache.put_with_weight(key, token(key, 9, counter), 1 + (key % 5) as i64)),
+            3 => wait(cache.put_with_weight_and_ttl(key, token(key, 9, counter), 1 + (key % 5) as i64, Duration::from_nanos(rng.range(0, 3 * NS)))),
             4 => wait(cache.delete(key)),
             5 => {
                 if cache.get(&key).is_some() {
-                    if let Issued::Ack(ack, _) = issue(&cache, &WriteOp::Upsert { key, value: Some(token(key, 9, counter)), weight: Some(25 + (key % 10) as i64), ttl: None, remove_ttl: false }) {
+                    if let Issued::Ack(ack, _) = issue(&cache, &WriteOp::Upsert { key, value: Some(token(key, 9, counter)), weight: Some(1 + (key % 5) as i64), ttl: None, remove_ttl: false }) {
                         let _ = rt::busy_await(ack.handle(), Duration::from_secs(20));
                     }
                 }
